@@ -138,6 +138,7 @@ def search_case(k, rng, nq):
     # an extension X of L that adds further forms to L's entries (X is then always
     # selected together with L: forms of an unselected extension are C04's finding)
     extforms = {}
+    extsenses = {}
     if rng.random() < 0.45:
         for w in words:
             if w[1] == 'L' and rng.random() < 0.7:
@@ -146,8 +147,8 @@ def search_case(k, rng, nq):
         if extforms:
             # ... or not selected at all: then the forms a word has are those Word.forms() reports
             # for it in that Wordnet (whether those should include X's is C04's finding, not C09's)
-            scope = rng.choice([['L', 'X'], ['L', 'X'], ['L', 'X', 'M'], ['L'], ['L', 'M']])
-    if not any(w[1] in scope for w in words):
+            scope = rng.choice([['L', 'X'], ['L', 'X'], ['L', 'X', 'M'], ['L'], ['L', 'M'], ['X'], ['X', 'M']])
+    if not any(w[1] in scope for w in words) and 'X' not in scope:
         words[0][1] = scope[0]
         words[0][0] = f'{scope[0]}|{scope[0]}-w0'
         words[0][5] = [[f'{scope[0]}|{scope[0]}-w0-{t}', f'{scope[0]}|{scope[0]}-moved-' + s.split('|', 1)[1]]
@@ -173,8 +174,17 @@ def search_case(k, rng, nq):
                 if rng.random() < 0.5:
                     qs.append([rng.choice(['words', 'senses', 'synsets']), q,
                                rng.choice(['~', '~', 'n', 'v']), True, rng.random() < 0.7, lem])
+    if extforms:
+        # X also hangs new senses on words of L: into a synset of L or into one of its own
+        lsyn = sorted({ssid for w in words if w[1] == 'L' for _, ssid in w[5]})
+        for w in words:
+            if w[1] == 'L' and w[0] in extforms and rng.random() < 0.6:
+                r_ = w[0].split('|', 1)[1]
+                tgt = rng.choice(lsyn + ['X|xs1', 'X|xs2'])
+                synpos.setdefault(tgt, rng.choice([w[2], 'n']))
+                extsenses[w[0]] = [[f'X|x-{r_}-ns', tgt]]
     return {'id': k, 'words': words, 'synpos': sorted(synpos.items()), 'scope': scope, 'queries': qs,
-            'extforms': extforms}
+            'extforms': extforms, 'extsenses': extsenses}
 
 
 def c09(tier: str) -> int:
